@@ -247,6 +247,16 @@ def codec_family(rnd, count, thorough):
         # in-format variant is impossible without inputs (a constant needs two operands), so also 1 input:
         gates = [("t0", G.ALWAYS_TRUE, ("a", "a"))] + [(f"n{i}", G.NOT, (f"n{i - 1}" if i > 1 else "t0",)) for i in range(1, (1 << k) - 1)]
         fam.append((f"one-input-{1 << k}-gates", circgen.build(["a"], gates, [gates[-1][0]])))
+    # counts and identifiers around powers of two: the word size must fit the largest of them, whichever it is
+    for n_in in (1, 2, 3, 4, 7, 8, 9, 16, 32):
+        ins = [f"x{i}" for i in range(n_in)]
+        for n_g in sorted({0, 1, max(0, 8 - n_in), max(0, 16 - n_in), max(0, 17 - n_in)}):
+            if not thorough and n_g > 1 and n_in not in (2, 4, 8):
+                continue
+            gates = [(f"n{i}", G.NOT if i % 2 else G.AND, ((f"n{i - 1}" if i else ins[-1]),) if i % 2 else ((f"n{i - 1}" if i else ins[0]), ins[i % n_in])) for i in range(n_g)]
+            last = gates[-1][0] if gates else ins[-1]
+            for outs in ([last], [ins[0]], [], ins[:], [last] * (n_in + n_g + 1)):
+                fam.append((f"sizes-{n_in}-inputs-{n_g}-gates-{len(outs)}-outputs", circgen.build(ins, gates, outs)))
     fam.append(("many-outputs", circgen.build(["a"], [("n", G.NOT, ("a",))], ["a", "n"] * 5)))
     fam.append(("constant-with-operands", circgen.build(["a", "b"], [("k", G.ALWAYS_FALSE, ("a", "b")), ("o", G.OR, ("k", "a"))], ["o"])))
     fam.append(("constant-with-operands-unsorted", circgen.build(["a", "b"], [("k", G.ALWAYS_TRUE, ("o2", "a")), ("o2", G.OR, ("b", "a"))], ["k"], ["k", "b", "o2", "a"])))
